@@ -101,6 +101,9 @@ fn is_go_predeclared(s: &str) -> bool {
             | "error"
             | "fmt"
             | "imag"
+            // not predeclared, but a package-level `init` must have no
+            // parameters or result and cannot be called
+            | "init"
             | "int"
             | "iota"
             | "len"
